@@ -3,15 +3,17 @@ from vlib.common import nt_len, NOTE, SCHED_TRUSTED
 _COQ = ["Common/ListLemmas.v", "Keyed/Model.v", "Keyed/Spec.v", "Keyed/Proofs.v"]
 _MON = ["Keyed/ProofsCancel.v", "Keyed/ProofsWalk.v", "Keyed/ProofsMono.v", "Keyed/ProofsData.v", "Keyed/ProofsKeys.v", "Keyed/ProofsRoot.v",
         "Keyed/ProofsMon.v", "Keyed/ProofsMon2.v", "Keyed/ProofsInc.v", "Keyed/ProofsMonAll.v",
-        "Keyed/ProofsWalk2.v", "Keyed/ProofsTimers.v", "Keyed/ProofsRef.v", "Keyed/ProofsReset.v", "Keyed/ProofsRefSim.v", "Keyed/ProofsKI.v",
-        "Keyed/ProofsRefStep.v", "Keyed/ProofsGone.v", "Keyed/ProofsRefs.v", "Keyed/ProofsMonAll2.v"]
+        "Keyed/ProofsWalk2.v", "Keyed/ProofsTimers.v", "Keyed/ProofsTimers2.v", "Keyed/ProofsRef.v", "Keyed/ProofsReset.v", "Keyed/ProofsRefSim.v", "Keyed/ProofsKI.v",
+        "Keyed/ProofsRefStep.v", "Keyed/ProofsGone.v", "Keyed/ProofsRefs.v", "Keyed/ProofsMonAll2.v",
+        "Keyed/ProofsRetry.v", "Keyed/ProofsRetryRef.v", "Keyed/ProofsC75.v", "Keyed/ProofsMonAll3.v"]
 _RULE = ("implementation-driven random gate-level histories of keyed.Keyed and keyed.KeyedRefCount over 2-3 keys (SetKey/RemoveKey/"
          "SyncKeys with duplicates/GetKey/GetKeys, AddKeyRef/Release in two segments (a third one if the call is found outside rc.mtx before "
          "Keyed.RemoveKey: gate 5, then raced against AddKeyRef of the same key)/KeyedRefCount.RemoveKey, Reset/Restart of one or all "
          "routines with conditions, SetContext/ClearContext over root contexts made on demand, the owner of a root context cancelling it "
          "(installed or not, again, before it is installed; afterwards calls of every kind and timer callbacks are steered at the dead "
          "root), instances stepped through their first select, user-function returns with "
-         "nil/Canceled/error, bookkeeping sections, fake-clock advances, retry and delayed-removal timer callbacks parked and run later), "
+         "nil/Canceled/error, bookkeeping sections, fake-clock advances, retry and delayed-removal timer callbacks parked and run later, the constructor's "
+         "mode switched by the history - routine / nil Routine / nil Routine for odd keys - with ResetRoutine steered at records without a routine), "
          "release delay 0 or 1000 ms (a quarter of the delayed configurations hand WithReleaseDelay the negative value), back-off none/[100]/[100,200] + corpus; distinct = distinct event sequence; non-trivial = >= 10 events")
 
 
@@ -60,7 +62,7 @@ _MODELS = [
          corpus="keyed", project={"C06": _proj_c06, "C07": _proj_c07}, quick_n=1500, thorough_n=150000, nontrivial=nt_len(10), rule=_RULE),
 ]
 _TRUSTED = SCHED_TRUSTED + [
-    "modelled, not verified: time.AfterFunc/Stop (armed/fired/stopped/ran), context.WithCancel (an instance's context is cancelled by its cancel function or, synchronously, with the root context it was derived from; it is born cancelled under a cancelled root), the scripted back-off built by the WithBackoff factory (one per record), the constructor callback (data = key*1000 + construction count)",
+    "modelled, not verified: time.AfterFunc/Stop (armed/fired/stopped/ran), context.WithCancel (an instance's context is cancelled by its cancel function or, synchronously, with the root context it was derived from; it is born cancelled under a cancelled root), the scripted back-off built by the WithBackoff factory (one per record), the constructor callback (data = key*1000 + construction count; a routine or, as the history prescribes with event 22, a nil Routine)",
 ]
 _ASSUME = ["Go map iteration order is unobservable: the model iterates in key order (SetContext, SyncKeys' removal loop, ResetAll/RestartAll), the harness numbers the instances spawned by one call in key order and compares key lists as sorted sets",
            "the harness realises the eager schedule for instances blocked on their predecessor; the theorems cover every placement of the wake-ups",
@@ -88,8 +90,12 @@ PROPS = {
                          "state evaluated on the implementation's observations (key set after every event, data, return values, references); a "
                          "schedule point before Keyed.RemoveKey takes k.mtx (parked only when rc.mtx is free, which the verified code never "
                          "is there) exposes a Release whose removal is not atomic with its reference bookkeeping. Monitors tied to the model for ALL event "
-                         "lists and configurations (model_satisfies_monitors, partial): on the model's own observations clause 6/5 is never false and every "
-                         "observation parses (6/9); 6/1-6/4 are not yet proved in that form (the refinement theorems and the bounded cross-check cover them).",
+                         "lists and configurations (model_satisfies_monitors, FULL statement proved): on the model's own observations no clause of the monitors "
+                         "is ever false - 6/1 key set, 6/2 data, 6/3 return values, 6/4 references, 6/5 Release calls, 6/9 parsing (and all of 7/*): the "
+                         "reference machine's key table (data, deadline of the pending removal, failed flag, constructor counts) describes the model's key map "
+                         "after every step; the request-level machine simulates AbsSpec.v (extended by ResetRoutine/ResetAllRoutines) operation by operation. "
+                         "The constructor callback may return NO routine (nil Routine; per-event mode, wire event 22): such a record occupies its key, is never "
+                         "started, and keeps the exit channel of the instance ResetRoutine cancelled (D22 repair; the pinned code is a _refuted theorem).",
                     note=NOTE + "Interpretation: a removal request for a key whose removal is already pending changes nothing, even if the key's "
                                 "routine has failed meanwhile (the code checks the pending removal first); 'failed' = the current record's recorded "
                                 "exit was an error and nothing was started since. ResetRoutine on a key pending removal silently drops the removal "
@@ -111,10 +117,15 @@ PROPS = {
                          "release delay has run out and its removal callback is not merely parked - has no in-user instance with a live "
                          "context (7/6) and gets no new instance (7/7). Root contexts cancelled by their owner (not through the container) are modelled: "
                          "an instance whose root is cancelled is cancelled in every reachable state, the container drops a cancelled root at its next "
-                         "SyncKeys/ResetRoutine/RestartRoutine call and starts nothing there. Monitors tied to the model for ALL event lists and "
-                         "configurations (model_satisfies_monitors, partial): on the model's own observations clauses 7/1 7/2 7/3 7/4 are never false "
-                         "(the monitors' incarnations name the model's lineages; a live instance was started under the root the container holds); 7/5 "
-                         "7/6 7/7 are not yet proved in that form.",
+                         "SyncKeys/ResetRoutine/RestartRoutine call and starts nothing there. A constructor that returns NO routine (nil Routine; per-event mode, wire "
+                         "event 22) is modelled: the record occupies its key, is never started, RestartRoutine leaves it alone, and ResetRoutine hands it the exit "
+                         "channel of the instance it cancelled so that the next record's instance still waits (D22 repair; pinned code: _refuted theorem and corpus "
+                         "history). Monitors tied to the model for ALL event lists and configurations (model_satisfies_monitors, FULL statement proved, and "
+                         "model_run_check_clean for run_check_keyed): on the model's own observations no clause is ever false - 7/1 7/2 7/3 7/4 (the monitors' "
+                         "incarnations name the model's lineages; a live instance was started under the root the container holds), 7/5 (a retry obligation is the "
+                         "pending retry timer of the record registered under the key; the monitors' back-off index is the record's; a due timer has fired after the "
+                         "eager schedule), 7/6 7/7 (a key registered in the model is never gone for the reference machine: a due pending removal has its callback "
+                         "parked), 7/9, and all of 6/*.",
                     note=NOTE + "Retry liveness is stated per step (fires when due; callback restarts) and monitored on every trace; 'retried while "
                                 "wanted' holds for intervals in which the container holds a context that its owner has not cancelled (ClearContext cancels the "
                                 "obligation; under a cancelled root a run would end at once). A stale "
